@@ -7,6 +7,8 @@ design matrix / projected unfolding of the block problem at the CURRENT other bl
 contract (A3) and lemma L1 (normal equations of a convex quadratic => global block minimiser), L2 (Eckart–Young) the block
 update is the block minimiser, hence the objective does not increase; L6 composes this with C06.
 """
+import numpy as np
+
 from ..oblig import GOb
 from ..symint import atom, EngineError, sprod
 from ..loopcut import LoopCut
@@ -76,26 +78,29 @@ def obligations(tier):
             st["rec_errors"] = [I["e2"], I["e1"]]
             del G.LA_LOG[:]
             cut.body(st, 1)
-        return [dict(op=c["op"], A=c["A"], B=c["B"], at=c["at"]) for c in G.LA_LOG]
+        return [dict(op=c["op"], A=c["A"], B=c["B"], X=c["X"], at=c["at"]) for c in G.LA_LOG]
 
-    def cp_solve_post(ridge=None):
+    def cp_solve_post(ridge=None, fixed=()):
         def post(S, I, calls):
+            # block coordinate descent, stated over the sequence of solve calls and their results (not over local variable names of the sweep): the k-th solve
+            # is the block problem of the k-th free mode at the factors already updated in this sweep and the previous ones for the modes still to come
             pairs = []
             solves = [c for c in calls if c["op"] == "solve"]
-            for c in solves:
-                at = c["at"]
-                m, w, fs = at["mode"], at["weights"], at["factors"]
+            w, fs = I["w"], list(I["fs"])
+            free = [m for m in range(len(fs)) if m not in fixed]
+            for m, c in zip(free, solves):
                 N_ = SP.cp_gram(S, w, fs, m, ridge)
                 pairs.append((f"mode {m}: Gram argument ≡ (w wᵀ)∘⊛_(q≠m) U_qᴴU_q (+λI), transposed as solve expects", c["A"], _T(S, N_)))
                 pairs.append((f"mode {m}: right-hand side ≡ MTTKRP_mᵀ at the current other blocks and weights", c["B"], _T(S, SP.mttkrp(S, I["X"], w, fs, m))))
-            return pairs + [("one exact block solve per updated mode", len(solves), len(calls and [c for c in calls if c["op"] == "solve"]))]
+                fs[m] = _T(S, c["X"])     # the updated block is the transposed solution
+            return pairs + [("one exact block solve per updated mode", len(solves), len(free))]
         return post
 
     for N in range(2, maxN + 1):
         for opt, kwargs, ridge in [("plain", dict(), None), ("l2_reg", dict(l2_reg=0.5), 0.5), ("normalize_factors", dict(normalize_factors=True), None),
                                    ("fixed_mode_0", dict(fixed_modes=[0]), None)]:
             add("decomposition._cp:parafac", f"N={N},{opt}", cp_setup(N), lambda I, kwargs=kwargs: run_cp(_cp.parafac, _cp, I, dict(kwargs, return_errors=True)),
-                cp_solve_post(ridge), dict(order=N, options=opt), "solve sites ≡ normal equations of the block problem", side_nonzero=("normalize" in opt))
+                cp_solve_post(ridge, tuple(kwargs.get("fixed_modes", ()))), dict(order=N, options=opt), "solve sites ≡ normal equations of the block problem", side_nonzero=("normalize" in opt))
         # line search: the jumped iterate is installed only on paths whose condition contains new_error < last_error
         def run_ls(I):
             S = I["_S"]
@@ -177,15 +182,17 @@ def obligations(tier):
         cut = LoopCut(_tk.partial_tucker)
         rec = []
         def svd_stub(matrix, n_eigenvecs=None, **kw):
-            rec.append(dict(matrix=matrix, n_eigenvecs=n_eigenvecs, at=G.caller_snapshot()))
+            rec.append(dict(matrix=matrix, n_eigenvecs=n_eigenvecs))
             if S.name == "sym":
                 U = G.opaque_tensor("SVDU", [matrix.shape[0], n_eigenvecs], matrix.dtype, ortho_axis=0)
+                rec[-1]["U"] = U
                 return U, G.opaque_tensor("SVDS", [n_eigenvecs]), G.opaque_tensor("SVDV", [n_eigenvecs] + G.axis_sizes(matrix)[1:], matrix.dtype)
             from tensorly.tenalg.svd import svd_interface as real
             import numpy as np
             rec[-1]["matrix"] = np.array(matrix, copy=True)
             out = real(matrix, n_eigenvecs=n_eigenvecs, **kw)
             S.record("SVDU", out[0]); S.record("SVDS", out[1]); S.record("SVDV", out[2])
+            rec[-1]["U"] = out[0]
             return out
         rank = list(I["r"]) if S.name == "sym" else [f.shape[1] for f in I["fs"]]
         with stubbed(_tk, initialize_tucker=lambda *a, **k: (I["core"], list(I["fs"])), svd_interface=svd_stub):
@@ -196,13 +203,18 @@ def obligations(tier):
         return dict(calls=rec, rank=rank, core=st2["core"], factors=list(st2["factors"]), modes=list(st2["modes"]))
     def hooi_post(S, I, r):
         pairs = []
-        for c in r["calls"]:
-            at = c["at"]
-            idx, mode, modes, fs = at["index"], at["mode"], list(at["modes"]), at["factors"]
-            N_ = len(S.shape(I["X"]))
+        # block coordinate descent: the k-th SVD of a sweep sees the factors already updated in this sweep (modes before k) and the previous ones (modes after k).
+        # Stated over the sequence of SVD calls and their results, not over local variable names of the sweep.
+        N_ = len(S.shape(I["X"]))
+        modes = list(range(N_))
+        fs = list(I["fs"])
+        for idx, c in enumerate(r["calls"][:N_]):
+            mode = modes[idx]
             proj = SP.multi_mode_dot(S, I["X"], fs, modes, skip=idx, transpose=True)
-            pairs.append((f"mode {mode}: SVD input ≡ unfold(X ×_(q≠m) U_qᴴ, m)", c["matrix"], S.group(proj, [[mode], [k for k in range(N_) if k != mode]])))
+            pairs.append((f"mode {mode}: SVD input ≡ unfold(X ×_(q≠m) U_qᴴ, m) with the factors of modes < m already updated in this sweep", c["matrix"], S.group(proj, [[mode], [k for k in range(N_) if k != mode]])))
             pairs.append((f"mode {mode}: number of singular vectors ≡ rank[m]", c["n_eigenvecs"], r["rank"][idx]))
+            fs[idx] = c["U"]
+        pairs.append(("the factors after the sweep are the singular vectors computed in it", list(r["factors"]), fs))
         pairs.append(("one truncated SVD per mode", len(r["calls"]), len(r["rank"])))
         pairs.append(("after the sweep the core is the projection X ×_k U_kᴴ onto the new factors", r["core"], SP.multi_mode_dot(S, I["X"], r["factors"], r["modes"], transpose=True)))
         return pairs
@@ -395,6 +407,83 @@ def obligations(tier):
     for N in range(2, maxN + 1):
         add("regression.tucker_regression:TuckerRegressor.fit", f"X-order={N + 1},scalar target", tkreg_setup(N), run_tkreg, tkreg_post, dict(x_order=N + 1, target="scalar"),
             "solve sites ≡ ridge normal equations of the block problem")
+    # ====================================================================== PARAFAC2 line search: what is accepted is what was judged
+    for nnm in (None, [0], [0, 2]):
+        def ls_setup(S):
+            K = atom("K")
+            return dict(_S=S, Xs=[S.input(f"X{i}", [atom(f"J{i}"), K]) for i in range(2)], w=S.input("w", [R]),
+                        fs=[S.input("A", [2, R]), S.input("B", [R, R]), S.input("Cm", [K, R])], fl=[S.input("Al", [2, R]), S.input("Bl", [R, R]), S.input("Cl", [K, R])],
+                        P=[S.input(f"P{i}", [atom(f"J{i}"), R]) for i in range(2)], Pn=[S.input(f"Pn{i}", [atom(f"J{i}"), R]) for i in range(2)],
+                        err=S.input("err", []), lserr=S.input("lserr", []), nrm=S.input("nrm", []))
+        def ls_call(I, nnm=nnm):
+            rec = {}
+            def proj_stub(ts, fs_, svd):
+                rec["proj_factors"] = list(fs_)
+                return list(I["Pn"])
+            def err_stub(ts, decomposition, *a, **k):
+                rec["err_decomposition"] = (decomposition[0], list(decomposition[1]), list(decomposition[2]))
+                return I["lserr"] * I["nrm"]
+            ls = _p2._BroThesisLineSearch(I["nrm"], "truncated_svd", verbose=False, nn_modes=nnm)
+            with stubbed(_p2, _compute_projections=proj_stub, _parafac2_reconstruction_error=err_stub):
+                f, p_, e = ls.line_step(8, list(I["Xs"]), list(I["fl"]), I["w"], list(I["fs"]), list(I["P"]), I["err"])
+            from ..symint import current_ctx
+            ctx = current_ctx()
+            decisions = [(repr(db.op), db.lhs, db.rhs, val) for db, val in (ctx.data_path if ctx else [])]
+            accepted = p_[0] is I["Pn"][0] if I["_S"].name == "sym" else bool(np.shares_memory(p_[0], I["Pn"][0]) or p_[0] is I["Pn"][0])
+            last = decisions[-1] if decisions else None
+            cmp_ok = bool(last is not None and last[0] == "'<'" and last[2] is I["err"] and last[3])
+            return dict(f=list(f), p=list(p_), e=e, rec=rec, accepted=accepted, cmp_ok=cmp_ok, tested=(last[1] if last else None))
+        def ls_post2(S, I, r):
+            out = []
+            if r["accepted"]:
+                out += [("accepted jump: the returned factors are the ones the projections were computed for", list(r["f"]), r["rec"]["proj_factors"]),
+                        ("accepted jump: the returned factors are the ones whose error was compared with the current error", list(r["f"]), r["rec"]["err_decomposition"][1]),
+                        ("accepted jump: the returned error is that error, relative to the data norm", r["e"], I["lserr"])]
+                if S.name == "sym":
+                    out.append(("the jump is accepted only on the path where the tested quantity is smaller than the current error", r["cmp_ok"], True))
+                    out.append(("the tested quantity is the error of the jumped point relative to the data norm", r["tested"], I["lserr"]))
+            else:
+                out += [("rejected jump: the current factors come back", list(r["f"]), list(I["fs"])), ("rejected jump: the current error comes back", r["e"], I["err"])]
+            return out
+        add("decomposition._parafac2:_BroThesisLineSearch.line_step", f"nn_modes={nnm}", ls_setup, ls_call, ls_post2, dict(nn_modes=str(nnm)),
+            "an accepted line-search point is exactly the point that was projected and judged; a rejected one changes nothing")
+    # ====================================================================== coupled matrix-tensor ALS: every least-squares site is the block problem of the REPORTED objective
+    # 1/2 ||X - [[w; A, B, C]]||^2 + 1/2 ||Y - A V^T||^2.  The initialiser is used by contract: unit weights unless it is asked to normalise, in which case it returns weights.
+    import tensorly.decomposition._cmtf_als as _cm
+    for normalize in (False, True):
+        def cm_setup(S):
+            n = dims(3)
+            return dict(_S=S, X=S.input("X", n), Y=S.input("Y", [n[0], atom("Jm")]), w=S.input("w", [R]), fs=[S.input(f"U{k}", [n[k], R]) for k in range(3)])
+        def cm_call(I, normalize=normalize):
+            S = I["_S"]
+            seen = []
+            def init_stub(t, rank, **k):
+                seen.append(bool(k.get("normalize_factors")))
+                w = I["w"] if k.get("normalize_factors") else None
+                if len(t.shape) == 3:
+                    return CPTensor((w, list(I["fs"])))
+                return CPTensor((w, [I["fs"][0], (G.opaque_tensor("CINIT", [t.shape[1], rank]) if S.name == "sym" else __import__("numpy").ones((t.shape[1], rank)))]))
+            cut = LoopCut(_cm.coupled_matrix_tensor_3d_factorization)
+            with stubbed(_cm, initialize_cp=init_stub):
+                st = cut.prefix(I["X"], I["Y"], R if S.name == "sym" else I["fs"][0].shape[1], normalize_factors=normalize)
+                st["tensor_cp"] = CPTensor((st["tensor_cp"].weights, list(st["tensor_cp"].factors)))
+                st["rec_errors"] = []
+                del G.LA_LOG[:]
+                cut.body(st, 0)
+            return dict(calls=[dict(op=c["op"], A=c["A"], B=c["B"], X=c["X"]) for c in G.LA_LOG if c["op"] == "lstsq"], weights=st["tensor_cp"].weights)
+        def cm_post(S, I, r):
+            calls, w = r["calls"], r["weights"]
+            fs = list(I["fs"])
+            out = [("four least-squares problems per sweep (V, then modes 2, 1, 0)", len(calls), 4),
+                   ("V update: design ≡ the coupled factor A", calls[0]["A"], fs[0]), ("V update: right-hand side ≡ Y", calls[0]["B"], I["Y"])]
+            for c, m in zip(calls[1:3], (2, 1)):
+                others = [f for q, f in enumerate(fs) if q != m]
+                out.append((f"mode {m}: design ≡ Khatri-Rao of the other factors carrying the weights of the model whose error is reported", c["A"], SP.khatri_rao(S, others, weights=w)))
+                out.append((f"mode {m}: right-hand side ≡ unfolding of X along mode {m}, transposed", c["B"], S.group(I["X"], [[q for q in range(3) if q != m], [m]])))
+                fs[m] = _T(S, c["X"])
+            return out
+        add("decomposition._cmtf_als:coupled_matrix_tensor_3d_factorization", f"normalize_factors={normalize}", cm_setup, cm_call, cm_post, dict(normalize_factors=normalize),
+            "least-squares sites ≡ block problems of the reported objective")
     return obs
 
 
